@@ -275,7 +275,38 @@ func c20Run(w *core.Worker, ci int, hsql []string, kind func(int) string, gaps [
 	}
 	cp := func(rows []c20Row) []c20Row { return append([]c20Row{}, rows...) }
 	for k := range hsql {
-		if isGap(k) {
+		var slowB chan core.ProcResult
+		if isGap(k) && !exclusive && (ci*7+k)%5 == 0 {
+			// B arrives first and is slow: it holds the table for update (0.4 s between its change and its COMMIT) at the moment A's
+			// statement starts. Whatever A's statement needs from the file it gets after B's COMMIT — a cached copy that was
+			// judged current before the wait is stale after it. For the model this is B committing in the gap.
+			bN++
+			stamp := fmt.Sprintf("B%d", bN)
+			slowB = make(chan core.ProcResult, 1)
+			go func() {
+				slowB <- core.RunProc(core.ProcOpts{Dir: dir, Args: csvqArgs("-q", "--wait-timeout", "10", fmt.Sprintf("UPDATE t SET ver = '%s';", stamp)), Env: []string{"VERIF_DELAY=txcommit.begin=400"}, Timeout: 60 * time.Second})
+			}()
+			held := false
+			for n := 0; n < 2000 && !held; n++ {
+				if _, err := os.Stat(filepath.Join(dir, "."+fname+".lock")); err == nil {
+					held = true
+				} else {
+					time.Sleep(5 * time.Millisecond)
+				}
+			}
+			if !held {
+				<-slowB
+				w.Inconclusive("the slow process B never showed its lock file")
+				return
+			}
+			for j := range disk {
+				disk[j].ver = stamp
+			}
+			if loaded {
+				bCommittedWhileLoaded = true
+			}
+			w.Count("commits_of_a_slow_B_that_held_the_table_when_the_statement_of_A_started", 1)
+		} else if isGap(k) {
 			bN++
 			stamp := fmt.Sprintf("B%d", bN)
 			res := core.RunProc(core.ProcOpts{Dir: dir, Args: csvqArgs("-q", "--wait-timeout", "0.2", fmt.Sprintf("UPDATE t SET ver = '%s';", stamp)), Timeout: 60 * time.Second})
@@ -320,6 +351,17 @@ func c20Run(w *core.Worker, ci int, hsql []string, kind func(int) string, gaps [
 			}
 		}
 		res := s.Exec(hsql[k])
+		if slowB != nil {
+			br := <-slowB
+			if br.KilledFromOutside() {
+				w.Inconclusive(fmt.Sprintf("process B was ended by signal %d from outside the case", br.Signal))
+				return
+			}
+			if br.Code != 0 {
+				viol(k, "b-failed", fmt.Sprintf("the slow B, which held the table before A's statement started, failed with exit %d: %s", br.Code, truncateStr(br.Stderr, 150)))
+				return
+			}
+		}
 		if res.Err != nil {
 			viol(k, "a-error", res.Err.Error())
 			return
